@@ -21,12 +21,12 @@ RULE = ('sorted fragment sequences (NLA / CHIC / plain Fragment; 1-4 cells; shor
         'fragments EVERY check_eject_every in 0..n plus None is executed (exhaustive over schedules), for larger inputs sampled intervals. '
         'Non-trivial = (input, schedule) run in which at least one molecule was emitted before the input was exhausted and the input has a '
         'molecule of >=2 fragments; distinct = distinct (input seed, cache, pooling, schedule).'
-        ' Plus max_associated_fragments 2 / 3 and cross-contig twins (same cell, UMI, strand, start, end on the next contig).')
+        ' Plus max_associated_fragments 2 / 3 and cross-contig twins (same cell, UMI, strand, start, end on the next contig); plain molecules opened by a short copy, extended by a long one and joined later through the far end; plain single-end libraries with a well defined grouping (identical spans), also on coordinate 0, for which both pooling methods must give the true partition.')
 ASSUMPTIONS = ['precondition of the property: coordinate sorted input and every fragment span + read length shorter than cache_size/2',
                'schedules are the deterministic ejection interval of a single-threaded generator']
 MIN_NONTRIVIAL = {'quick': 1500, 'thorough': 60000}
 REQUIRED_MONITORS = ['event:arrive', 'event:emit', 'emit:before_end_of_input', 'schedule:runs', 'path:alignmentfile', 'oracle:truth_compared',
-                     'eject:rounds_with_ejection', 'eject:rounds_nonprefix', 'eject:rounds_noncontiguous', 'history:restarted_passes', 'config:max_associated_fragments', 'lib:cross_contig_twins']
+                     'eject:rounds_with_ejection', 'eject:rounds_nonprefix', 'eject:rounds_noncontiguous', 'history:restarted_passes', 'config:max_associated_fragments', 'lib:cross_contig_twins', 'lib:molecule_end_grows_after_creation', 'lib:plain_fragments_on_coordinate_0']
 EXHAUSTIVE = {'quick': True, 'thorough': True}
 SHARD_TIMEOUT = {'quick': 900, 'thorough': 7200}
 
@@ -34,6 +34,9 @@ SHARD_TIMEOUT = {'quick': 900, 'thorough': 7200}
 def gen_cases(tier, seed):
     n = 64 if tier == 'quick' else 2400
     return [{'i': i, 'seed': seed} for i in range(n)]
+
+
+GROWN = [0]
 
 
 def build_plain_single_end(r, case):
@@ -64,6 +67,10 @@ def build_plain_single_end(r, case):
             cell_g = r.choice([1, 2])
             strand_g = r.random() < 0.2
             specs = [(x, x + r.randint(3, 9), 'GAA'), (x + 10, x + 10 + L, 'GCC'), (x + 20, x + r.randint(25, 40), 'GGG')]
+            if r.random() < 0.6:
+                # B is opened by a short copy and only then extended by the long one (same start): the molecule's end grows after it was created
+                specs.insert(1, (x + 10, x + 10 + r.randint(3, 9), 'GCC'))
+                GROWN[0] += 1
             if dstart is not None and dstart > x + 40:
                 specs.append((dstart, pend, 'GTT'))
                 b2s = r.randint(dstart + 1, x + 10 + L - 3) if dstart + 1 < x + 10 + L - 3 else None
@@ -97,12 +104,49 @@ def build_plain_single_end(r, case):
     return 'plain', cache, gen, recs, truths
 
 
+def build_plain_exact(r, case):
+    """single-end reads for the plain Fragment class whose grouping IS well defined: the copies of a molecule are identical in cell, strand, UMI,
+    start and end; two molecules of one (cell, strand) share neither start nor end unless their UMIs differ. Includes molecules on the very
+    first base of a contig (coordinate 0) and on the last one."""
+    cache = r.choice([1000, 2000])
+    h = cache // 2
+    ncontig = r.randint(1, 2)
+    gen = F.Genome(r, [(f'chr{j + 1}', r.choice([6000, 20000])) for j in range(ncontig)])
+    recs, truths = [], {}
+    rid = 1
+    used = defaultdict(set)
+    for name, ln in gen.refs:
+        ref = gen.get(name)
+        spots = [0, 0, ln] + [r.randrange(1, ln - 5) for _ in range(r.randint(3, 12))]
+        for sp in spots:
+            L = r.randint(5, h - 1)
+            a, b = (sp, sp + L) if sp != ln else (ln - L, ln)
+            if b > ln:
+                continue
+            cell, reverse = r.choice([1, 1, 2]), r.random() < 0.3
+            if ('s', a) in used[(name, cell, reverse)] or ('e', b) in used[(name, cell, reverse)]:
+                continue
+            used[(name, cell, reverse)].update([('s', a), ('e', b)])
+            for umi in r.sample(['AAA', 'CCC', 'GGT'], r.randint(1, 2)):
+                for _ in range(r.randint(1, 4)):
+                    recs.append({'name': F.qname(rid, case['i'] + 1, cell, umi), 'flag': 16 if reverse else 0, 'tid': gen.tid(name), 'pos': a, 'mapq': 60,
+                                 'cigar': f'{b - a}M', 'seq': ref[a:b], 'qual': [30] * (b - a), 'tags': {}, 'next_tid': -1, 'next_pos': -1})
+                    truths[rid] = {'id': rid, 'key': ('exact', name, cell, reverse, umi, a, b), 'span': (a, b), 'valid': True}
+                    if a == 0:
+                        AT_ZERO[0] += 1
+                    rid += 1
+    return 'plain', cache, gen, recs, truths
+
+
+AT_ZERO = [0]
 TWINS = [0]
 
 
 def build_input(r, case):
     if case['i'] % 4 == 3:
         return build_plain_single_end(r, case)
+    if case['i'] % 8 == 2:
+        return build_plain_exact(r, case)
     method = r.choice(['nla', 'nla', 'chic', 'plain'])
     cache = r.choice([1000, 2000, 10000])
     # precondition: every fragment is shorter than the cache radius (cache_size/2). With reads of 40 bp and fragments of >= 50 bp the
@@ -193,8 +237,12 @@ def run_case(case):
     acc = Acc()
     r = rng(case['seed'], 'C07', case['i'])
     TWINS[0] = 0
+    GROWN[0] = 0
+    AT_ZERO[0] = 0
     method, cache, gen, recs, truths = build_input(r, case)
     acc.count('lib:cross_contig_twins', TWINS[0])
+    acc.count('lib:molecule_end_grows_after_creation', GROWN[0])
+    acc.count('lib:plain_fragments_on_coordinate_0', AT_ZERO[0])
     if len(truths) < 2:
         return acc
     d = r.choice([0, 0, 1])
@@ -327,10 +375,11 @@ def run_case(case):
         # candidate with every member, pooling 1 with the molecule's aggregated span, so on crafted single-end inputs the two legitimately group
         # differently (also on paired data when far ends of different molecules coincide). Agreement of the pooling methods is demanded where
         # grouping is well defined: the site based classes.
-        if not single_end_plain and method != 'plain' and not cap and ref_parts[0] != ref_parts[1]:
+        exact_plain = any(t['key'][0] == 'exact' for t in truths.values())
+        if not single_end_plain and (method != 'plain' or exact_plain) and not cap and ref_parts[0] != ref_parts[1]:
             acc.violate('pooling-methods-disagree', f'never-eject partitions of pooling 0 and 1 differ ({cfg})', {'config': cfg})
         acc.count('oracle:truth_compared')
-        if method != 'plain' and not cap and set(map(frozenset, ref_parts[1])) != truth_part:
+        if (method != 'plain' or exact_plain) and not cap and set(map(frozenset, ref_parts[1])) != truth_part:
             acc.violate('never-eject-partition-differs-from-truth', f'reference partition differs from simulator truth ({cfg})', {'config': cfg})
     else:
         acc.count('oracle:truth_compared', 0)
